@@ -663,6 +663,12 @@ func openers() []caseIn {
 	ethAs := func(as, from, nonce int) node { return node{K: "eth", From: from, Nonce: nonce, Gas: 50000, As: &as} }
 	ex := func(g int, c ...node) node { return node{K: "exec", G: g, C: c} }
 	wa := func(c ...node) node { return node{K: "wasm", G: 0, C: c} }
+	chain := func(n, g int, inner node) node {
+		for i := 0; i < n; i++ {
+			inner = ex(g, inner)
+		}
+		return inner
+	}
 	evm := func(ms ...node) txIn { return txIn{Ext: "evm", Key: "none", Signer: -1, Msgs: ms} }
 	cos := func(s int, ms ...node) txIn { return txIn{Key: "cosmos", Signer: s, Msgs: ms} }
 	big := node{K: "eth", From: 20, Nonce: 1, Gas: 50000}
@@ -685,6 +691,9 @@ func openers() []caseIn {
 		{Txs: []txIn{evm(eth(20, 0)), evm(eth(20, 1)), cos(1, ex(1, ex(1, ethAs(1, 20, 0)))), cos(1, ex(1, ethAs(1, 20, 0))), cos(1, ethAs(1, 20, 0)),
 			cos(0, wa(ex(idContract, ethAs(idContract, 20, 0)))), cos(0, wa(ethAs(idContract, 20, 0))), cos(2, ex(2, ex(2, ex(2, ethAs(2, 21, 0))))),
 			evm(ethAs(20, 20, 2)), evm(eth(20, 2))}},
+		// deep chains: exec^8 / exec^12 around somebody else's Ethereum message, with and without the From field
+		{Txs: []txIn{evm(eth(20, 0)), cos(1, chain(8, 1, eth(20, 0))), cos(1, chain(12, 1, ethAs(1, 20, 0))), cos(0, wa(chain(6, idContract, ethAs(idContract, 20, 0)))),
+			{Key: "eth", Signer: 20, Msgs: []node{chain(9, 20, eth(20, 1))}}, evm(eth(20, 1))}},
 		// extension-option routing with the wrong content
 		{Txs: []txIn{{Ext: "evm", Key: "cosmos", Signer: 1, Msgs: []node{{K: "send", From: 1}}}, {Ext: "evm", Key: "none", Signer: -1, Msgs: []node{eth(20, 0), {K: "send", From: 1}}},
 			{Ext: "other", Key: "none", Signer: -1, Msgs: []node{eth(20, 0)}}, {Ext: "other", Key: "cosmos", Signer: 1, Msgs: []node{{K: "send", From: 1}}},
